@@ -4,10 +4,15 @@
 // BlockExecutor, with an independent replica that checks every block) against a plain-Go reference model of declared
 // value movements:
 //
+//	genesis-* a handful of account-input transactions (valid, non-multiple, hostile) on the raw genesis state, before the
+//	          base state is built (so that a tree on which the setup cannot run still gets judged)
 //	sweep-*   every (kind x amount class x fee class) of the transaction alphabet as a one-transaction block on the
 //	          prepared base state, in both storage modes, with every tampered variant of every valid confidential tx
-//	hist-*    breadth-first search over chains of blocks (quick: <= 2 blocks x <= 2 txs, thorough: <= 3 x <= 3) over
-//	          small per-family alphabets, de-duplicated on (all balances, nonces, code presence, hidden ledger)
+//	hist-*    breadth-first search over chains of <= 2 blocks x <= 2 txs over per-family alphabets of 8-16 ops
+//	long-*    (thorough) <= 3 blocks x <= 2 txs over 5 ops;  deep-* (thorough) <= 3 blocks x <= 3 txs over 3-4 ops
+//
+// States are de-duplicated on (all balances, nonces, code presence, hidden ledger); a sample of the merges is
+// re-expanded from both histories (state-key self-test). Searches are sharded over worker subprocesses (vk.RunIsolated).
 //
 // See oracle.go for the oracle, ops.go for the alphabet, world.go for the base state.
 package main
